@@ -404,7 +404,9 @@ Definition vapply_all (v : view) (ops : list fsop) : view := fold_left vapply op
 (* writeFileSynced(name, data): open O_CREATE|O_TRUNC, write, fsync, close *)
 Definition write_file_synced (n d : bytes) : list fsop := [OCreate n; OWrite n d; OFsync n].
 
-(* setMeta(fd) on a directory seen as v *)
+(* setMeta(fd) on a directory seen as v.  Since the repair "fix: setMeta backs up CURRENT only when it is usable"
+   the old CURRENT is copied to CURRENT.bak only if it validates (well-formed, names an existing file): an
+   unusable CURRENT no longer replaces what may be the only usable pointer. *)
 Definition set_meta_ops (v : view) (fd : fdesc) : list fsop :=
   let content := meta_content fd in
   let p := pend_name (fd_num fd) in
@@ -412,7 +414,20 @@ Definition set_meta_ops (v : view) (fd : fdesc) : list fsop :=
   match lookup v s_CURRENT with
   | Some b =>
       if beq b content then []                                   (* content not changed, do nothing *)
-      else write_file_synced s_CURRENT_bak b ++ switch           (* back up the old CURRENT *)
+      else match try_current v s_CURRENT with
+           | TOk _ => write_file_synced s_CURRENT_bak b ++ switch   (* back up the old, usable CURRENT *)
+           | _ => switch
+           end
+  | None => switch
+  end.
+
+(* setMeta before that repair: whatever CURRENT holds is copied over CURRENT.bak *)
+Definition set_meta_ops_old (v : view) (fd : fdesc) : list fsop :=
+  let content := meta_content fd in
+  let p := pend_name (fd_num fd) in
+  let switch := write_file_synced p content ++ [ORename p s_CURRENT; OSyncDir] in
+  match lookup v s_CURRENT with
+  | Some b => if beq b content then [] else write_file_synced s_CURRENT_bak b ++ switch
   | None => switch
   end.
 
@@ -431,6 +446,16 @@ Definition get_meta_ops (ro : bool) (v : view) : gresult * list fsop :=
   end.
 
 Definition get_meta_result (v : view) : gresult := fst (get_meta_ops true v).
+
+(* the repair operations before the setMeta repair (for the refuted statement) *)
+Definition get_meta_ops_old (v : view) : list fsop :=
+  let g := get_meta_choice v in
+  match g_chosen g with
+  | Some (name, fd) =>
+      if negb (beq name s_CURRENT) || negb (match g_pend g with [] => true | _ => false end)
+      then set_meta_ops_old v fd ++ map OUnlink (g_pend g) else []
+  | None => []
+  end.
 
 (* does the repair log a failed os.Remove (a pending name that no longer exists when it is removed)? *)
 Fixpoint unlink_fails (v : view) (names : list bytes) : bool :=
